@@ -432,7 +432,17 @@ class Machine:
             v = int(op["int"])
             return bool(v) if op.get("ty") == "bool" else v
         if "fn" in op:
-            return FnRef(FnKey(op["fn"]))
+            fk = FnKey(op["fn"])
+            inst = s.frames[fi].inst
+            if inst and fk.d not in self.F.bodies:
+                # a function item named through a type parameter (`W::wrap` in `fn lift<W: Wrapper>`): inside the monomorphic
+                # instance being executed it is the one item of that name the compiler resolved for this instance
+                refs = [r for r in ((self.F.instances.get(inst) or {}).get("refs") or []) if (r.get("def") or "").rsplit("::", 1)[-1] == fk.name and r.get("def") in self.F.bodies]
+                if len({r["def"] for r in refs}) == 1:
+                    rb = self.F.bodies[refs[0]["def"]]
+                    fk = FnKey(dict(op["fn"], **{"def": refs[0]["def"], "inst": refs[0].get("inst") or refs[0]["def"], "res_def": refs[0]["def"], "res_inst": refs[0].get("inst") or refs[0]["def"],
+                                                   "local": True, "res_local": True, "name": rb.name or fk.name}))
+            return FnRef(fk)
         if "tyconst" in op:
             g = s.frames[fi].gints
             if len(g) == 1:
@@ -780,7 +790,8 @@ class Machine:
         args = [self.operand(s, fi, a) for a in t["args"]]
         if t.get("fn") is None:
             # call through a function value (closure / fn item held in a local)
-            f = self.operand(s, fi, t["func"]) if "func" in t else TOP
+            fop = t.get("func") or t.get("fn_operand")
+            f = self.operand(s, fi, fop) if fop else TOP
             return self._invoke_value(s, fi, t, f, args)
         self.calls_seen.add(d)
         return self._invoke(s, fi, t, fk, args)
@@ -839,6 +850,12 @@ class Machine:
         return self._finish_call(s, fi, t, term)
 
     def _invoke_value(self, s, fi, t, f, args):
+        if isinstance(f, Ref):
+            f = self.deref(s, f)
+        if isinstance(f, FnRef):
+            # a function item that travelled here as a value (a `fn(..) -> ..` parameter): the call is the call of that item
+            self.calls_seen.add(f.fk.d)
+            return self._invoke(s, fi, t, f.fk, args)
         raise Stop("undecided", None, "indirect call")
 
     # ------------------------------------------------------------------ applying a function value (closure / fn item)
